@@ -30,8 +30,8 @@ func C10(r *core.Report) {
 	c10AssertGates(r)
 	r.Floor("C10.R6", 7)
 	r.Floor("C10.R5", 3)
-	r.Floor("C10.R1", 8)
-	r.Floor("C10.R2", 10)
+	r.Floor("C10.R1", 5)
+	r.Floor("C10.R2", 5)
 	r.Floor("C10.R4", 4)
 }
 
